@@ -1,0 +1,90 @@
+//go:build verif
+
+// Contracts for the govc verifier (/verif). This file contains comments only; it is compiled
+// only under the build tag "verif" and contributes no declarations.
+package account
+
+// ---------------------------------------------------------------------------------------------
+// Per-transaction scratch state (C12): every transaction starts with an empty access list and empty
+// transient storage.
+
+//@ func AccountDB.Prepare
+//@   property C12
+//@   requires s != nil
+//@   ensures [hashes]    s.thash == thash && s.bhash == bhash && s.txIndex == ti
+//@   ensures [access]    s.accessList != nil && fresh(s.accessList) && len(s.accessList.addresses) == 0 && len(s.accessList.slots) == 0
+//@   ensures [transient] len(s.transientStorage) == 0 && forall a common.Address :: !has(s.transientStorage, a)
+//@   modifies s.thash, s.bhash, s.txIndex, s.accessList, s.transientStorage
+
+// ---------------------------------------------------------------------------------------------
+// Journal (C04): every mutator records an entry from which its undo method restores the previous value.
+// Mutator contracts state which entry is appended (type and recorded previous value); undo contracts state
+// what is restored from the entry. Together: undoing the entries of a mutator restores the state before it.
+
+//@ func AccountDB.AddRefund
+//@   property C04
+//@   requires adb != nil
+//@   ensures [journal] len(adb.transitions) == old(len(adb.transitions)) + 1 && istype(adb.transitions[len(adb.transitions)-1], refundChange) && unbox(adb.transitions[len(adb.transitions)-1], refundChange).prev == old(adb.refund)
+//@   ensures [prefix]  forall i int :: 0 <= i && i < old(len(adb.transitions)) ==> adb.transitions[i] == old(adb.transitions[i])
+//@   ensures [value]   adb.refund == old(adb.refund) + gas
+//@   modifies adb.transitions, elems(adb.transitions), adb.refund
+
+//@ func AccountDB.SubRefund
+//@   property C04
+//@   option maypanic
+//@   requires adb != nil
+//@   ensures [journal] len(adb.transitions) == old(len(adb.transitions)) + 1 && istype(adb.transitions[len(adb.transitions)-1], refundChange) && unbox(adb.transitions[len(adb.transitions)-1], refundChange).prev == old(adb.refund)
+//@   ensures [value]   adb.refund == old(adb.refund) - gas && gas <= old(adb.refund)
+//@   modifies adb.transitions, elems(adb.transitions), adb.refund
+
+//@ func refundChange.undo
+//@   property C04
+//@   requires s != nil
+//@   ensures [restore] s.refund == ch.prev
+//@   modifies s.refund
+
+//@ func AccountDB.Snapshot
+//@   property C04
+//@   requires adb != nil
+//@   ensures [id]    result == old(adb.nextRevisionID) && adb.nextRevisionID == old(adb.nextRevisionID) + 1
+//@   ensures [entry] len(adb.validRevisions) == old(len(adb.validRevisions)) + 1 && adb.validRevisions[len(adb.validRevisions)-1].id == result && adb.validRevisions[len(adb.validRevisions)-1].journalIndex == len(adb.transitions)
+//@   ensures [prefix] forall i int :: 0 <= i && i < old(len(adb.validRevisions)) ==> adb.validRevisions[i] == old(adb.validRevisions[i])
+//@   ensures [journal] len(adb.transitions) == old(len(adb.transitions))
+//@   modifies adb.nextRevisionID, adb.validRevisions, elems(adb.validRevisions)
+
+// Access list
+//@ func accessList.AddAddress
+//@   property C04
+//@   requires al != nil && al.addresses != nil
+//@   ensures [result] result == !old(has(al.addresses, address))
+//@   ensures [added]  has(al.addresses, address) && (result ==> al.addresses[address] == -1) && (!result ==> al.addresses[address] == old(al.addresses[address]))
+//@   ensures [others] forall k common.Address :: k != address ==> has(al.addresses, k) == old(has(al.addresses, k)) && al.addresses[k] == old(al.addresses[k])
+//@   modifies heap("map[common.Address]int")
+
+//@ func accessList.DeleteAddress
+//@   property C04
+//@   requires al != nil
+//@   ensures [gone]   !has(al.addresses, address)
+//@   ensures [others] forall k common.Address :: k != address ==> has(al.addresses, k) == old(has(al.addresses, k)) && al.addresses[k] == old(al.addresses[k])
+//@   modifies heap("map[common.Address]int")
+
+//@ func accessList.ContainsAddress
+//@   property C04
+//@   requires al != nil
+//@   ensures result == has(al.addresses, address)
+//@   modifies nothing
+
+//@ func AccountDB.AddAddressToAccessList
+//@   property C04
+//@   requires adb != nil && adb.accessList != nil && adb.accessList.addresses != nil
+//@   ensures [present] has(adb.accessList.addresses, addr)
+//@   ensures [journal] !old(has(adb.accessList.addresses, addr)) ==> len(adb.transitions) == old(len(adb.transitions)) + 1 && istype(adb.transitions[len(adb.transitions)-1], accessListAddAccountChange) && *unbox(adb.transitions[len(adb.transitions)-1], accessListAddAccountChange).address == addr
+//@   ensures [nochange] old(has(adb.accessList.addresses, addr)) ==> len(adb.transitions) == old(len(adb.transitions))
+//@   modifies adb.transitions, elems(adb.transitions), heap("map[common.Address]int")
+
+//@ func accessListAddAccountChange.undo
+//@   property C04
+//@   requires s != nil && s.accessList != nil && ch.address != nil
+//@   ensures [restore] !has(s.accessList.addresses, *ch.address)
+//@   ensures [others]  forall k common.Address :: k != *ch.address ==> has(s.accessList.addresses, k) == old(has(s.accessList.addresses, k)) && s.accessList.addresses[k] == old(s.accessList.addresses[k])
+//@   modifies heap("map[common.Address]int")
